@@ -35,3 +35,10 @@ package ext
 //@ func Recover
 //@   trusted
 //@   ensures result.Code != "ok"
+
+// WrapError: assumed - a non-nil error is never a *status.Err carrying the OK code
+//@ func WrapError
+//@   trusted
+//@   modifies ghost.errMade at 0
+//@   ensures err != nil ==> result.Code != "ok" && ghost(errMade, 0) == 1
+//@   ensures err == nil ==> result.Code == "ok" && ghost(errMade, 0) == old(ghost(errMade, 0))
